@@ -132,6 +132,27 @@ def features(prog):
     for f in prog["fns"]:
         for c in f["body"]:
             walk(c, visit)
+        # a local whose first assignment is inside a While body (no scope of its own)
+        seen = set(f["params"])
+
+        def decl(c, path, seen=seen):
+            if c["k"] == "SetVar" and len(c["nm"]) == 1:
+                name = c["nm"][0]["s"]
+                inwhile = False
+                for (pk, j) in path:
+                    if pk == "While" and j == 1:
+                        inwhile = True
+                    if pk in ("Repeat", "ForEach", "Closure") and (pk == "Closure" or j == 1):
+                        inwhile = False
+                if name not in seen and inwhile:
+                    feats.add("local-declared-in-while-body")
+                seen.add(name)
+            if c["k"] in ("Repeat", "ForEach"):
+                for n in c["nm"]:
+                    if n["s"]:
+                        seen.add(n["s"])
+        for c in f["body"]:
+            walk(c, decl)
     return feats
 
 
@@ -145,7 +166,7 @@ def report_mismatches(run, mism, site_prefix=""):
         elif m["got"]["st"] == "cerr":
             kind = "unexpected-compile-error"
         run.violation(kind, site_prefix + (rec.get("profile") or "?"),
-                      dict(id=rec["id"], profile=rec.get("profile"), features=feats, diff=summ[:6],
+                      dict(id=rec["id"], profile=rec.get("profile"), features=feats, feature=(feats[0] if len(feats) == 1 else ",".join(feats)), diff=summ[:6],
                            got_outcome=[m["got"]["st"], m["got"]["kind"]], expected_outcome=[m["expected"]["st"], m["expected"]["kind"]]),
                       case=dict(record=rec, expected=m["expected"]))
 
@@ -156,3 +177,58 @@ def drive_programs(profile, seed, n, out, max_size=400):
                 "obs": {"st": kind, "kind": "rc=%s" % rc, "globals": {}, "log": [], "trace": []}, "cmp_loc": False}
     return drive_trace(["cards-drive", "--profile", profile, "--seed", seed, "--n", n, "--max-size", max_size], out, n,
                        on_crash=on_crash)
+
+
+def tlc_programs(run, shard, label):
+    """programs enumerated by TLC from the bounded grammars of CardGen.tla"""
+    d = workdir("cfg-" + label)
+    cfg = os.path.join(d, "gen.cfg")
+    open(cfg, "w").write('CONSTANT Shard = "%s"\nSPECIFICATION Spec\nINVARIANT Emit\nCHECK_DEADLOCK FALSE\n' % shard)
+    progs = []
+    r = tlc(os.path.join(SPEC, "CardGen.tla"), cfg, workers=4, name=label,
+            on_print=lambda pr: progs.append(pr[1]) if pr[0] == "PROGRAM" else None)
+    require_tlc_ok(r, "CardGen shard " + shard)
+    run.add_tlc(r)
+    if not progs:
+        raise ToolError("CardGen produced no programs for shard " + shard)
+    return progs
+
+
+def run_programs(progs, profile, out, cmp_loc=False):
+    """compile + run TLC-produced programs on the real crate (crash isolated); writes records to `out`"""
+    d = os.path.dirname(out)
+    cases = os.path.join(d, os.path.basename(out) + ".cases")
+    with open(cases, "w") as f:
+        for i, p in enumerate(progs):
+            f.write(json.dumps({"id": i, "profile": profile, "prog": p, "cmp_loc": cmp_loc}) + "\n")
+    res = run_cases(["cards-run"], cases, len(progs), idle_timeout=15.0)
+    with open(out, "w") as f:
+        for i, (p, r) in enumerate(zip(progs, res)):
+            if r.get("status") == "ok":
+                rec = r["record"]
+            else:
+                rec = {"id": i, "profile": profile, "prog": p, "cmp_loc": cmp_loc,
+                       "obs": {"st": r.get("status", "abort"), "kind": str(r.get("detail"))[:200], "globals": {}, "log": [], "trace": []}}
+            f.write(json.dumps(rec) + "\n")
+    return out
+
+
+def note_program_stats(run, files):
+    kinds = {}
+    n = 0
+    for tf in files:
+        for l in open(tf):
+            rec = json.loads(l)
+            n += 1
+            run.distinct.add(digest(rec["prog"]))
+
+            def v(c, path):
+                kinds[c["k"]] = kinds.get(c["k"], 0) + 1
+            for f in rec["prog"]["fns"]:
+                for c in f["body"]:
+                    walk(c, v)
+    run.evaluations += n
+    prev = run.notes.get("card_kinds_exercised", {})
+    for k, c in kinds.items():
+        prev[k] = prev.get(k, 0) + c
+    run.notes["card_kinds_exercised"] = prev
